@@ -231,7 +231,6 @@ theorem m_flood (st : St) (n : Nat) (i : Nat) (f : Frame) (ports : List Nat) :
     (floodPorts (fuel + 1) st n i f ports).1.oof = true ∨ floodPorts (fuel + 1 + 1) st n i f ports = floodPorts (fuel + 1) st n i f ports := by
   simp only [floodPorts]; exact m_flood_fold fuel ih is n i ports st f
 
-set_option maxHeartbeats 1000000 in
 theorem m_host (st : St) (n : Nat) (i : Nat) (f : Frame) :
     (hostRecv (fuel + 1) st n i f).1.oof = true ∨ hostRecv (fuel + 1 + 1) st n i f = hostRecv (fuel + 1) st n i f := by
   simp only [hostRecv]
@@ -245,7 +244,6 @@ theorem m_host (st : St) (n : Nat) (i : Nat) (f : Frame) :
       repeat' (mono_step ih is fuel)
   · exact Or.inr rfl
 
-set_option maxHeartbeats 1000000 in
 theorem m_router (st : St) (n : Nat) (i : Nat) (f : Frame) :
     (routerRecv (fuel + 1) st n i f).1.oof = true ∨ routerRecv (fuel + 1 + 1) st n i f = routerRecv (fuel + 1) st n i f := by
   simp only [routerRecv]
@@ -277,7 +275,6 @@ theorem m_router (st : St) (n : Nat) (i : Nat) (f : Frame) :
             · repeat' (mono_step ih is fuel)
   · exact Or.inr rfl
 
-set_option maxHeartbeats 1000000 in
 theorem m_process (st : St) (n : Nat) (i : Nat) (f : Frame) :
     (routerProcess (fuel + 1) st n i f).1.oof = true ∨ routerProcess (fuel + 1 + 1) st n i f = routerProcess (fuel + 1) st n i f := by
   simp only [routerProcess]
@@ -298,7 +295,6 @@ theorem m_icmp (st : St) (n : Nat) (d : Ip) (pl : Pl) :
   simp only [sendIcmp]
   repeat' (mono_step ih is fuel)
 
-set_option maxHeartbeats 1000000 in
 theorem m_details (st : St) (n : Nat) (d : Ip) :
     (resolveDetails (fuel + 1) st n d).1.oof = true ∨ resolveDetails (fuel + 1 + 1) st n d = resolveDetails (fuel + 1) st n d := by
   simp only [resolveDetails]
